@@ -122,6 +122,19 @@ func String(name string, idx ...int) string {
 	return v
 }
 
+// StringExcluding: an arbitrary string containing none of the characters of excluded (engine: tagged, so that
+// strings.Split / strings.TrimSpace of concatenations built from such pieces are computed structurally).
+func StringExcluding(name, excluded string, idx ...int) string {
+	v, _ := lookup(name, idx)
+	return v
+}
+
+// FuncMapEntry: the capture-free function literal that parent stores under key in a map literal / function map
+// (engine only: looked up in parent's SSA; such closures have no name a native test could call them by).
+func FuncMapEntry(parent interface{}, key string) interface{} {
+	panic("zzverif: FuncMapEntry is engine-only")
+}
+
 func Assume(c bool) {
 	if !c {
 		assumeFail = true
